@@ -613,9 +613,10 @@ ValidateG(g) ==
   /\ \A p \in DOMAIN g.pools : g.seq >= SeqOf(p)
   /\ \A p \in DOMAIN g.fi : \A f \in DOMAIN g.fi[p] : g.fi[p][f].locked > 0
 
-(* InitGenesis at context height h: Expired() with an empty queue *)
+(* InitGenesis at context height h: a pool whose end height is not behind is
+   queued (fix 48cb1d6; before it `!Expired(ctx, pool)` skipped end = h) *)
 ImportQueue(g, h) ==
-  {<<g.pools[p].end, p>> : p \in {q \in DOMAIN g.pools : h < g.pools[q].end}}
+  {<<g.pools[p].end, p>> : p \in {q \in DOMAIN g.pools : h <= g.pools[q].end}}
 
 C12_Farm_Accepted(s) == ValidateG(ExportG(s))
 (* the rebuilt queue is the queue: every pool that still awaits its end-block
@@ -724,7 +725,8 @@ Inv_C06_Funded == C06_Funded(st, gh)
 Inv_C06_Covered == C06_Covered(st, gh)
 Inv_C06_ProRata == C06_ProRata(st, gh)
 Inv_C12_Farm_Accepted == C12_Farm_Accepted(st)
-Inv_C12_Farm_Queue == C12_Farm_Queue(st)
+(* exports happen at block boundaries: checked on the state after EndBlock *)
+Act_C12_Farm_Queue == [][ev'.name = "EndBlock" => C12_Farm_Queue(st')]_vars
 Inv_C13_QueueSound == C13_QueueSound(st)
 Inv_C13_QueueComplete == C13_QueueComplete(st, gh)
 Inv_C13_NoHalt == C13_NoHalt(ev)
